@@ -137,7 +137,20 @@ impl VerificationThread {
         let mut block = result.unwrap();
         block.routed_from_peer = Some(peer_index);
 
-        block.generate().unwrap();
+        if let Err(e) = block.generate() {
+            warn!(
+                "block : {:?}-{:?} fetched from peer : {:?} cannot be processed : {:?}",
+                block_id,
+                block_hash.to_hex(),
+                peer_index,
+                e
+            );
+            let mut peers = self.peer_lock.write().await;
+            if let Some(peer) = peers.find_peer_by_index_mut(peer_index) {
+                peer.invalid_block_limiter.increase();
+            }
+            return;
+        }
 
         if block.id != block_id || block.hash != block_hash {
             warn!(
